@@ -26,6 +26,7 @@ type c8Handler struct {
 	addOut   bool // middleware that adds an output (only interesting on no-publisher handlers)
 	outN     map[string]int  // uuid -> number of outputs
 	passSelf map[string]bool // uuid -> return the consumed object itself as first output
+	earlyAck map[string]bool // uuid -> the handler acks the message itself, waits a little, then returns its outputs
 	detach   map[string]bool // uuid -> the passed-on consumed object gets a fresh background context first
 	// parkConsumed: the consumed object is kept in a shared list; reuseParked: the second output is an object parked by another handler
 	parkConsumed map[string]bool
@@ -69,7 +70,7 @@ func c08Body(r *Run) {
 	ownerPtr := map[*message.Message]*c8Handler{} // the returned objects themselves (UUIDs of passed-on consumed messages may repeat)
 	var parked []c8Parked
 	for i := 0; i < nH; i++ {
-		h := &c8Handler{name: fmt.Sprintf("handler-%d", i), outN: map[string]int{}, passSelf: map[string]bool{}, detach: map[string]bool{}, parkConsumed: map[string]bool{}, reuseParked: map[string]bool{},
+		h := &c8Handler{name: fmt.Sprintf("handler-%d", i), outN: map[string]int{}, passSelf: map[string]bool{}, detach: map[string]bool{}, earlyAck: map[string]bool{}, parkConsumed: map[string]bool{}, reuseParked: map[string]bool{},
 			invoked: map[*Delivery]int{}, returned: map[*Delivery][]*message.Message{}, snaps: map[*Delivery][]*message.Message{}}
 		h.sub = subs[t.Int(nSubs)]
 		h.pub = pubs[t.Int(nPubs)]
@@ -88,6 +89,7 @@ func c08Body(r *Run) {
 			h.parkConsumed[sm.UUID] = t.Chance(1, 3)
 			h.reuseParked[sm.UUID] = t.Chance(1, 3)
 			h.detach[sm.UUID] = t.Chance(1, 2)
+			h.earlyAck[sm.UUID] = t.Chance(1, 4)
 		}
 		hs = append(hs, h)
 		r.Describe("%s: %s/%s -> %s/%s noPublisher=%v addOutputMiddleware=%v outputs=%v passSelf=%v", h.name, h.sub.Name, h.subTopic, h.pub.Name, h.pubTopic, h.noPub, h.addOut, h.outN, h.passSelf)
@@ -121,6 +123,12 @@ func c08Body(r *Run) {
 			}
 			h.invoked[d]++
 			checkCtx("consumed message inside handler", h, msg)
+			if h.earlyAck[msg.UUID] {
+				// settled by the handler itself before it is done (like InstantAck): the broker ends the delivery's context,
+				// the outputs still have to be handed over
+				msg.Ack()
+				time.Sleep(time.Millisecond)
+			}
 			var outs []*message.Message
 			if !h.noPub {
 				for k := 0; k < h.outN[msg.UUID]; k++ {
@@ -240,8 +248,8 @@ func c08Body(r *Run) {
 				h := who
 				outs := h.returned[d]
 				expectAck := true
-				if h.noPub && h.addOut {
-					expectAck = false
+				if h.noPub && h.addOut && !h.earlyAck[d.Msg.UUID] {
+					expectAck = false // (a settlement the handler made itself stands)
 				}
 				if d.Acked() != expectAck || d.Nacked() == expectAck {
 					sig := "a message whose handler succeeded was not acked"
